@@ -179,6 +179,11 @@ pub fn record_format(seed: u64, thorough: bool, path: &str) -> Value {
     let mut pos = 0;
     for i in 0..(if thorough { 900 } else { 300 }) { let l = 1 + i % 9; runs.push((pos, l)); pos += l + 1 + (i * 7) % 70; }
     rl_extra.push((pos + 5, runs));
+    // runs of 4 code units each (gap and length of two units): 16 of them fill a 64-unit block exactly
+    for k in [16usize, 17, 32, 33, 48] {
+        let runs: Runs = (0..k).map(|i| (i * 40 + 10, 10)).collect();
+        rl_extra.push((k * 40 + 3, runs));
+    }
     for (len, runs) in contents.iter().chain(rl_extra.iter()) {
         let (len, ones) = (*len, bv::ones_of(runs));
         let small = len <= 2000;
